@@ -392,6 +392,16 @@ func (fr *Frame) enterLoop(li *loopInfo, pre *State, pc Term) *State {
 	li.modTop = top
 	if top {
 		vc.havocAllHeaps(st)
+		var hn []string
+		for h := range heaps {
+			hn = append(hn, h)
+		}
+		sort.Strings(hn)
+		for _, h := range hn {
+			if vc.specs.isPrivateHeap(h) || vc.specs.isImmutableHeap(h) {
+				vc.havocHeapKeepOld(st, pre, h, pc)
+			}
+		}
 	} else {
 		var hn []string
 		for h := range heaps {
